@@ -25,15 +25,40 @@ def content(pt, kind, seed):
     return {"g": "rand", "seed": seed, "lo": 0, "hi": 1 if info["comp"] != "f32" else 0, "flo": 0.0, "fhi": 1e-3}
 
 
-KIND_MAG = {"rand": 2.0, "max": 1.0, "narrow": 1.0, "tiny": 1e-3, "alpha": 1.0}
+KIND_MAG = {"rand": 2.0, "max": 1.0, "narrow": 1.0, "tiny": 1e-3, "alpha": 1.0, "runs": 1.0}
 
 
 def fcontent(pt, kind, seed, w, h, alpha):
     """float images resized with alpha handling: colours in [0, 1], alpha in [0.5, 1] (the divide by a resampled alpha that
     cancels to ~0 amplifies any rounding difference without bound; that regime is C01's, judged with exact arithmetic)"""
     info = rz.PT[pt]
+    if kind == "runs" and not (alpha and info["alpha"] and info["comp"] == "f32"):
+        # rows made of runs (1..20 pixels) that are constant zero / constant maximum / another constant / noise: whole SIMD
+        # vectors of equal or extreme values next to mixed ones (data-dependent shortcuts of a kernel)
+        r = random.Random(seed)
+        nc = info["nc"]
+        isf = info["comp"] == "f32"
+        lo, hi = (0, 0) if isf else ((-2 ** 31, 2 ** 31 - 1) if info["comp"] == "i32" else (0, info["max"]))
+        vals = []
+        left, mode, const = 0, 0, None
+        for _ in range(w * h):
+            if left == 0:
+                left = r.randint(1, 20)
+                mode = r.choice([0, 1, 2, 3, 3])
+                const = [(r.random() if isf else r.randint(lo, hi)) for _ in range(nc)]
+            left -= 1
+            if mode == 0:
+                px = [0.0 if isf else (lo if info["comp"] == "i32" else 0)] * nc
+            elif mode == 1:
+                px = [1.0 if isf else hi] * nc
+            elif mode == 2:
+                px = const
+            else:
+                px = [(r.random() if isf else r.randint(lo, hi)) for _ in range(nc)]
+            vals += [rz.f32bits(x) for x in px] if isf else px
+        return {"g": "data", "v": vals}, "runs"
     if not (alpha and info["alpha"] and info["comp"] == "f32"):
-        return content(pt, kind, seed), kind
+        return content(pt, "rand" if kind == "runs" else kind, seed), ("rand" if kind == "runs" else kind)
     r = random.Random(seed)
     nc = info["nc"]
     vals = []
@@ -82,7 +107,7 @@ def gen(tier, rng):
                     geo = (dh, sw, dh, dw)
                 else:
                     geo = (sw, max(1, (dh * fn + fd - 1) // fd), dw, dh)
-                kind = rz.pick(n, 134, ["rand", "rand", "max", "narrow", "tiny"])
+                kind = rz.pick(n, 134, ["rand", "rand", "max", "narrow", "tiny", "runs", "runs"])
                 box = None
                 Q = 1
                 if n % 7 == 0 and geo[0] >= 3 and geo[1] >= 2:
@@ -125,7 +150,7 @@ def gen(tier, rng):
             kw = rz.random_resize_kw(rng, maxdim=70)
             g += 1
             seed = rng.randint(1, 10 ** 9)
-            kind = rng.choice(["rand", "rand", "max", "narrow", "tiny"])
+            kind = rng.choice(["rand", "rand", "max", "narrow", "tiny", "runs", "runs"])
             cont, kind = fcontent(kw["pt"], kind, seed, kw["sw"], kw["sh"], kw["alpha"])
             chk, log, echo = tol_class(kw["pt"], kw["alpha"], kind)
             for cpu in rz.CPUS:
